@@ -46,13 +46,14 @@ theorem stage_grey_aux (alts : List Nat) (orders : List (List Nat)) :
       | some g => alts.filter (fun c => colour g c == 3)
       | none => [] := by
   unfold stage
+  generalize scOrders alts orders = s
   rcases SingleCrossing.isSC orders alts.length with ⟨isSc, w⟩
   cases isSc
   · rfl
-  · cases orders.head? with
+  · cases s.head? with
     | none => rfl
     | some v1 =>
-      cases orders.getLast? with
+      cases s.getLast? with
       | none => rfl
       | some vn =>
         simp only [Bool.not_true, Bool.false_eq_true, if_false]
